@@ -474,6 +474,11 @@ class Interp:
             if is_sym(p):
                 return ('sym', Sym('index', (p, _hashable(idx)), qtype(node)))
             raise PEError('subscript of %r at %s' % (p, astdb.loc_str(node)))
+        if k == 'UnaryOperator' and node.get('opcode') == '__extension__':
+            return self.lvalue(kids(node)[0])
+        if k in ('StmtExpr', 'PredefinedExpr', 'StringLiteral'):
+            cell = {'v': self.eval(node)}
+            return (cell, 'v')
         if k == 'UnaryOperator' and node.get('opcode') == '*':
             p = self.eval(kids(node)[0])
             if isinstance(p, Ptr):
